@@ -594,6 +594,56 @@ def r13_4_5(ctx: Ctx) -> None:
            "the result is ordered by position", form="")
 
 
+def r13_6(ctx: Ctx) -> None:
+    """ the fallback of remove_incomplete keeps 'the most complete alternative': the fragment it offers is the one that
+        maximises the share of its own profile that it covers (length / profile length) - the same measure the fallback
+        threshold is applied to.  Choosing by absolute length instead returns a less complete fragment of a longer profile,
+        or nothing at all when that fragment is under the threshold while a shorter profile's fragment is over it. """
+    from ..flow import inline_reaching, key_function
+    qual = "remove_incomplete"
+    func = ctx.fn(REF, qual)
+    cfg = CFG(func)
+    if len(func.args.args) < 2:
+        raise AnalysisError(f"{qual}: unexpected signature")
+    lengths = func.args.args[1].arg
+
+    def proportional(expr: ast.AST) -> bool:
+        text = txt(expr)
+        return "len(" in text and f"{lengths}[" in text
+    found = 0
+    for call in calls(func):
+        if call_name(call) in ("max", "sorted") and kwarg(call, "key") is not None:
+            key = kwarg(call, "key")
+            if isinstance(key, ast.Name) and key.id == "len":
+                body: Optional[ast.AST] = ast.parse("len(x)", mode="eval").body
+            else:
+                kf = key_function(ctx.repo, REF, func, key)
+                body = kf[1] if kf else None
+            found += 1
+            ok = body is not None and proportional(body)
+            ctx.ob("R13.6", REF, call, qual, f"fallback choice {txt(call)[:50]}", ok,
+                   "the fragment offered by the fallback maximises length / profile length, the measure the fallback threshold "
+                   "applies to", detail="" if ok else "chosen by a key that ignores the profile length: profiles short (100) and "
+                   "long (300), fragments short[10:50) (0.40) and long[100:190) (0.30): nothing is returned although short's fragment "
+                   "is over the threshold", form=txt(key)[:80])
+    for loop in [n for n in walk_local(func) if isinstance(n, ast.For)]:
+        for test in [n for n in walk_local(loop) if isinstance(n, ast.If) and isinstance(n.test, ast.Compare) and len(n.test.ops) == 1
+                     and isinstance(n.test.ops[0], (ast.Gt, ast.GtE, ast.Lt, ast.LtE))]:
+            left, right = test.test.left, test.test.comparators[0]
+            stores = [st for st in test.body if isinstance(st, ast.Assign) and isinstance(st.targets[0], ast.Name)]
+            for measure, best in ((left, right), (right, left)):
+                if isinstance(best, ast.Name) and any(st.targets[0].id == best.id and txt(st.value) == txt(measure) for st in stores):
+                    found += 1
+                    resolved = inline_reaching(cfg, test, measure)
+                    ok = proportional(resolved)
+                    ctx.ob("R13.6", REF, test, qual, f"running best `{best.id}`", ok,
+                           "the fragment offered by the fallback maximises length / profile length, the measure the fallback "
+                           "threshold applies to", detail="" if ok else f"the running best is `{txt(resolved)[:60]}`",
+                           form=txt(resolved)[:100])
+    if found < 1:
+        raise AnalysisError(f"{qual}: how the fallback chooses its fragment was not recognised")
+
+
 def run(ctx: Ctx) -> None:
     ctx.rule("R13.2", "interval kernels of the hit classes; greedy filter shapes", floor=9)
     ctx.rule("R13.3", "best-of-group selection is deterministic and strict", floor=3)
@@ -601,6 +651,8 @@ def run(ctx: Ctx) -> None:
     ctx.rule("R13.5", "grouping sweep keeps a running maximum; ranking key", floor=5)
     r13_2(ctx)
     r13_4_5(ctx)
+    ctx.rule("R13.6", "the fallback offers the proportionally most complete fragment", floor=1)
+    r13_6(ctx)
     statement = "no set's iteration order reaches the position-sorted hit lists of the refinement"
     family_e.run_for(ctx, "R13.1", [CP, DOMID], floor=1, statement=statement,
                      only_functions={"filter_results", "filter_result_multiple", "hsp_overlap_size", "find_hmmer_hits",
